@@ -17,7 +17,7 @@ def check(tier, replay):
         gens=[("one behaviour per transition (4 schemas, <=4 records)", "Gen_VData.tla", "Gen_VData_cover.cfg", "cover", {"sample": 25000}),
               ("every history of <= 4 calls after creation (write, seek, read, detach/attach, reopen in between)", "Gen_VData.tla", "Gen_VData_hist.cfg", "cover", {"sample": 4000}),
               ("simulate depth 30 (<=40 records, block sizes 4..64)", "Gen_VData.tla", "Gen_VData_sim.cfg", "sim", {"num_quick": 2500, "num": 60000, "depth": 31})],
-        mutators={"Create", "Write", "Seek", "SetFields", "Detach", "Attach", "Bump"},
+        mutators={"Create", "Write", "Seek", "SetFields", "Detach", "Attach", "Bump", "SetIl"},
         need_actions=["Write", "Seek", "Read", "Inquire", "Detach", "Attach"],
         tv_quick=8000,
         assumptions=["VSsetfields names the fields before VSread (the field list of the creating attachment is the write list only)",
